@@ -74,9 +74,21 @@ Definition encode_utf8_addr_xtext_rune (cp : N) : bytes :=
 Definition encode_utf8_addr_xtext (s : bytes) : bytes :=
   flat_map encode_utf8_addr_xtext_rune (runes s).
 
-(* encodeUTF8AddrUnitext *)
+(* the non-ASCII code points for which unicode.IsSpace holds: U+0085, U+00A0
+   (Latin-1) and the White_Space property above (U+1680, U+2000..U+200A,
+   U+2028, U+2029, U+202F, U+205F, U+3000); their UTF-8 forms are
+   GoStrings.uni_spaces (C14Unitext.uni_spaces_encode) *)
+Definition uspace_cps : list N :=
+  [133; 160; 5760; 8192; 8193; 8194; 8195; 8196; 8197; 8198; 8199; 8200; 8201; 8202;
+   8232; 8233; 8239; 8287; 12288]%N.
+Definition uspace_cp (cp : N) : bool := existsb (N.eqb cp) uspace_cps.
+
+(* encodeUTF8AddrUnitext: ASCII as in the xtext form; a non-ASCII code point
+   raw, except white space, which is embedded (the server splits the line with
+   strings.Fields / strings.TrimSpace) *)
 Definition encode_utf8_addr_unitext_rune (cp : N) : bytes :=
   if (cp <? 128)%N then (if qchar (n_byte cp) then [n_byte cp] else embedded cp)
+  else if uspace_cp cp then embedded cp
   else utf8_encode cp.
 Definition encode_utf8_addr_unitext (s : bytes) : bytes :=
   flat_map encode_utf8_addr_unitext_rune (runes s).
